@@ -42,7 +42,7 @@ def _run_one(job):
     # unit UNDECIDED instead of hanging the check
     import signal
 
-    limit = int(os.environ.get("PYVC_UNIT_LIMIT_S", "900" if timeout_s <= 30 else "3600"))
+    limit = int(os.environ.get("PYVC_UNIT_LIMIT_S", "900" if timeout_s <= 60 else "3600"))
 
     class _Limit(BaseException):
         pass
@@ -144,7 +144,7 @@ def main(argv=None):
     except Exception as e:  # noqa: BLE001
         print(f"CHECKER-ERROR property={pid} cannot load {modname}: {type(e).__name__}: {e}")
         return 3
-    timeout_s = 20.0 if tier == "quick" else 120.0
+    timeout_s = 45.0 if tier == "quick" else 120.0  # generous: on the unchanged tree every VC takes < 3 s; the slack absorbs a loaded machine
     if os.environ.get("PYVC_TIMEOUT_S"):  # the self-test only needs ONE refuted obligation: shorter budget per obligation
         timeout_s = float(os.environ["PYVC_TIMEOUT_S"])
     want_smt2 = True if tier == "thorough" else "samples"
@@ -231,6 +231,8 @@ def main(argv=None):
         selftest = run_all(pid, jobs=3)
         for r in selftest:
             print(f"  SELFTEST {r['status']} {r['seed']}: {r['detail'][:160]}")
+            if r["status"] in ("MISSED", "FALSE-ALARM"):
+                errors.append(f"self-test: {r['seed']} -> {r['status']}: {r['detail'][:200]}")
 
     # ---- native: bounded stand-ins and encoder validation
     native_reports = []
